@@ -44,6 +44,7 @@ def leaf_paths(nodes):
 
 class Check(PropCheck):
     pid = 'C11'
+    pure_predicate = True
     rule = ('single operations with EVERY valid argument (every non-root node for prune, every ordered pair of nodes for merge_children - '
             'siblings and not, factors {0, 0.5, 2, -1, 0.001, 3.7}) on all shapes with <= 6 nodes and random trees with unary / '
             'multifurcating nodes and exact dyadic lengths, and sequences of operations; resolve under many seeds (hook) with the outcome '
@@ -111,6 +112,10 @@ class Check(PropCheck):
         return cases
 
     def nontrivial(self, case, il):
+        # (also the place where distinct resolve outcomes are counted: it runs in the parent process, the predicate in the workers)
+        for k, (o, l) in enumerate(zip(case.ops, il)):
+            if o.startswith('resolve') and l and l[0] == 'ok' and k + 1 < len(il) and case.ops[k + 1] == 'dump':
+                self.outcomes.add(hash(' '.join(il[k + 1])))
         for o, l in zip(case.ops, il):
             if o == 'dump':
                 nodes = dump_of(l)
@@ -242,7 +247,6 @@ class Check(PropCheck):
                     return 'resolve left node %d with %d children' % (n['id'], len(n['children']))
                 if n['id'] >= len(b) and n['pe'] != 'f0000000000000000':
                     return 'resolve created a branch of length %s' % n['pe']
-            self.outcomes.add(tuple(tuple(n['children']) for n in lc))
         if op == 'ladderize':
             def desc(v):
                 return sum(1 + desc(ch) for ch in c[v]['children'])
